@@ -104,6 +104,8 @@ PAIRS = [
     ("perm-products[H2O2]", "j>>q.OO", "j>>OO.q", True),
     ("perm-reactants[H2O2]", "j.OO>>q", "OO.j>>q", False),
     ("perm-abstract", "j.w>>q", "w.j>>q", False),
+    ("perm-reactants[hydride]", "[H-].j>>q", "j.[H-]>>q", False),
+    ("alias-duplicate", "j.j>>q", "j.jx>>q", False),
     ("alias-reactant", "j>>q", "jx>>q", False),
     ("alias-product", "j>>q", "j>>qx", False),
     ("atom-map[water]", "j.O>>q", "j.[OH2:3]>>q", False),
